@@ -13,10 +13,10 @@ from . import appgen
 ID = 'C04'
 GEN_DEPS = []
 RULE = ('application trees satisfying the property\'s side condition (each mount prefix used by one application, nobody else registers under it; prefixes of 1-2 static/param segments, depth <= 2, '
-        '0-8 fangs per application, 0-3 local fangs) x 20 requests (hits, misses inside and outside every mount, 5 methods + HEAD) x an optional fang that answers early; '
+        '0-8 fangs per application, 0-3 local fangs) x 20 requests (hits, misses inside and outside every mount, 5 methods + HEAD + OPTIONS) x an optional fang that answers early; '
         'non-trivial = at least two applications with fangs or local fangs, and the request lies under a mount prefix or misses; distinct by canonical JSON')
 ASSUMPTIONS = ['the side condition of the property is the decidable predicate `sideCond` (DESIGN 6.0): the generator draws only such trees',
-               'OPTIONS requests are covered by C14 (the automatic OPTIONS handlers)']
+               'OPTIONS requests: the fangs that run are judged here by the scope statement (whatever the method); the automatic OPTIONS handlers themselves are C14']
 
 
 def all_fangs(app):
@@ -28,7 +28,7 @@ def all_fangs(app):
 
 def mk(rng, app, nreq=20):
     paths = appgen.request_paths(rng, app, nreq)
-    reqs = [{'m': rng.choice(['GET', 'GET', 'HEAD', 'POST', 'PUT', 'PATCH', 'DELETE']), 'p': p.hex()} for p in paths]
+    reqs = [{'m': rng.choice(['GET', 'GET', 'HEAD', 'POST', 'PUT', 'PATCH', 'DELETE', 'OPTIONS']), 'p': p.hex()} for p in paths]
     fs = all_fangs(app)
     stop = rng.choice(fs) if fs and rng.random() < 0.3 else None
     return {'case': {'app': app, 'stop': stop, 'reqs': reqs}}
@@ -108,7 +108,7 @@ def judge(case, out, m):
                 if o['trace'] == w2: want = w2
         if o['trace'] != want:
             v.append(('violation', f'req {req["m"]} {unhx(req["p"])!r} stop={case.get("stop")}: trace {o["trace"]}, the configuration gives {want}'))
-        if mm is not None:
+        if mm is not None and req['m'] != 'OPTIONS':          # the automatic OPTIONS handlers are modelled in C14; here OPTIONS is judged by the scope statement alone
             x = mm['reqs'][i]
             if x.get('trace') != o.get('trace') or x.get('status') != o.get('status'):
                 v.append(('disagree', f'req {req["m"]} {unhx(req["p"])!r}: impl {o.get("status")} {o.get("trace")} model {x.get("status")} {x.get("trace")}'))
